@@ -27,7 +27,7 @@ def plan(tier, seed):
         specs += ec.fixture_specs()
     for p, n in enumerate(common.split_counts(420 if q else 6000, 12 if q else 24)):
         specs.append(dict(name="entry-%d" % p, mode="interp", what="entry", n=n, seed=[seed, 33, p]))
-    for p, n in enumerate(common.split_counts(60 if q else 800, 4 if q else 12)):
+    for p, n in enumerate(common.split_counts(100 if q else 1200, 5 if q else 12)):
         specs.append(dict(name="phase-%d" % p, mode="interp", what="phase", n=n, seed=[seed, 333, p]))
     return specs
 
@@ -134,16 +134,45 @@ def run_phase_case(res, d):
     st = ms.ModelState.empty_model(args, data)
     st.point_labels = [i % K for i in range(T)]
     covs = []
+    mode = d.get("eps_mode", "fixed")
     for k, c in enumerate(st.clusters):
         dk = dict(d)
         dk["rng"] = d["rng"] + [k]
         dk["kind"] = d["kind"] if k else "plain"
         S = hostile_cov(dk)
-        if eps > 0:
+        if mode == "fixed" and eps > 0:
             S = S / max(1e-300, float(np.abs(S).max())) * float(10 ** rng.uniform(-1, 1)) if np.abs(S).max() > 0 else S
+        if mode == "tiny":
+            # the high-variance end of the quantifier: variances ~1e12, precision entries ~1e-12 and far smaller off-diagonals
+            S = S / max(1e-300, float(np.abs(S).max())) * 1e12 if np.abs(S).max() > 0 else S
         c.empirical_covariance = S
         c.stacked_data_mean = np.zeros(nn)
         covs.append(S.copy())
+    if mode != "fixed":
+        # adaptive floor: look at what the optimiser produces for cluster 0 and put the floor exactly on / just above / between
+        # the magnitudes that occur, whatever their scale
+        from fast_ticc import admm
+        try:
+            raw0 = np.abs(np.asarray(admm.admm_optimize_theta(covs[0].copy(), d["lam"], W, N).theta, dtype=np.float64))
+        except Exception:
+            res.skipped("adaptive floor: optimiser raised")
+            return
+        nz = np.sort(raw0[raw0 > 0])
+        if nz.size == 0:
+            res.skipped("adaptive floor: no non-zero entry")
+            return
+        if mode == "exact":
+            eps = float(nz[int(rng.integers(0, nz.size))])          # an entry of magnitude exactly eps must be kept
+        elif mode in ("above_min", "tiny"):
+            eps = float(nz[0] * 1.5)                                 # removes only the smallest entries
+        else:
+            j = int(rng.integers(0, max(1, nz.size - 1)))
+            eps = float(np.sqrt(nz[j] * nz[min(j + 1, nz.size - 1)]))
+        args.min_meaningful_covariance = eps
+        d = dict(d)
+        d["eps"] = eps
+        res.count("adaptive_floor:" + mode)
+        res.maxi("neg_log10_smallest_floor", int(-np.log10(eps)) if eps > 0 else 0)
     raws = []
 
     class Pool(history.InlinePool):
@@ -218,7 +247,9 @@ def run_shard(spec, res):
             run_entry_case(res, d)
         else:
             d["what"] = "phase"
-            d["eps"] = [0.0, 1e-6, 1e-3, 0.5, 0.0, 0.05][i % 6]
+            d["eps"] = [0.0, 1e-6, 1e-3, 0.5, 0.0, 0.05, 1.0, 1.0, 1.0, 1.0][i % 10]
+            d["eps_mode"] = ["fixed"] * 6 + ["exact", "above_min", "between", "tiny"]
+            d["eps_mode"] = d["eps_mode"][i % 10]
             d["N"], d["W"] = min(d["N"], 3), min(d["W"], 3)
             run_phase_case(res, d)
         if i == 0:
@@ -240,6 +271,8 @@ def finalize(merged, tier):
     ec.min_counter(merged, out, "mrfs_checked", 150 if q else 1500)
     ec.min_counter(merged, out, "phase_mrfs_checked", 30 if q else 400)
     ec.min_counter(merged, out, "floor_cases_with_removed_entries", 10 if q else 100)
+    for mode in ("exact", "above_min", "between", "tiny"):
+        ec.min_counter(merged, out, "adaptive_floor:" + mode, 4 if q else 40)
     ec.min_counter(merged, out, "result_floats_checked", 1000 if q else 10000)
     ec.unexpected(merged, out)
     return out
